@@ -1,6 +1,7 @@
 package packhandle
 
 import (
+	"github.com/go-git/go-git/v6/internal/simhook"
 	"io/fs"
 
 	"github.com/go-git/go-git/v6/plumbing/format/idxfile"
@@ -15,6 +16,7 @@ func (h *PackHandle) Index() (idxfile.Index, error) {
 	if h.closed.Load() {
 		return nil, fs.ErrClosed
 	}
+	simhook.BeforeLock(&h.indexMu)
 	h.indexMu.Lock()
 	defer h.indexMu.Unlock()
 	if h.closed.Load() {
